@@ -60,7 +60,7 @@ func spec(f Flavour) (flavourSpec, error) {
 	case AsanUbsan:
 		return flavourSpec{cc: "clang",
 			cflags: []string{"-fsanitize=address,undefined", "-fno-sanitize-recover=all", "-fno-omit-frame-pointer", "-O1", "-g"},
-			env:    []string{"ASAN_OPTIONS=detect_leaks=0:abort_on_error=0:allocator_may_return_null=1:symbolize=1", "UBSAN_OPTIONS=print_stacktrace=1"}}, nil
+			env:    []string{"ASAN_OPTIONS=detect_leaks=0:abort_on_error=0:allocator_may_return_null=1:symbolize=1:quarantine_size_mb=8:malloc_context_size=3", "UBSAN_OPTIONS=print_stacktrace=1"}}, nil
 	case PlainGcc:
 		return flavourSpec{cc: "gcc", cflags: []string{"-O2"}, ldflags: wrapLd, drvDefs: []string{"-DWVCDRV_WRAP_ALLOC"}}, nil
 	case NoArch:
